@@ -97,6 +97,14 @@ def _k4(v: Any, case: Any) -> bool:
     return bool(spans) and set(w.get("wrong_ids") or []) == {r[0] for r in spans}
 
 
+# K5 -------------------------------------------------------------------------------------------
+@classifier("C20", "k5_rank_discovery_reads_an_event_argument_named_rank")
+def _k5(v: Any, case: Any) -> bool:
+    """create_rank_to_trace_dict takes the first "rank": N text of a file: in every wrongly mapped file that text is an event
+    argument lying ahead of (or instead of) the distributedInfo block."""
+    return v.clause == "rank-discovery" and v.witness.get("wrong_files_have_a_rank_argument_ahead_of_the_metadata") is True
+
+
 # K2 -------------------------------------------------------------------------------------------
 @classifier("C01", "k2_sync_named_event_without_correlation_duplicated_by_trimming")
 def _k2(v: Any, case: Any) -> bool:
